@@ -31,38 +31,38 @@ PortsFull == {AnyN, 0, 53, 80}
 
 \* match parts <<proto, src, smask, dst, dmask, sport, dport>> of the covering domain
 CoverParts ==
-    {   <<Any, AnyN, AnyN, AnyN, AnyN, AnyN, AnyN>>,        \* nothing specified
+    {   <<AnyP, AnyN, AnyN, AnyN, AnyN, AnyN, AnyN>>,        \* nothing specified
         \* protocol alone
         <<"tcp", AnyN, AnyN, AnyN, AnyN, AnyN, AnyN>>,
         <<"udp", AnyN, AnyN, AnyN, AnyN, AnyN, AnyN>>,
         <<"icmp", AnyN, AnyN, AnyN, AnyN, AnyN, AnyN>>,
         \* source alone: exact, exact with zero mask, low-bit range, high-bit (non-contiguous) range, everything
-        <<Any, 1, AnyN, AnyN, AnyN, AnyN, AnyN>>,
-        <<Any, 1, 0, AnyN, AnyN, AnyN, AnyN>>,
-        <<Any, 2, 1, AnyN, AnyN, AnyN, AnyN>>,
-        <<Any, 1, 2, AnyN, AnyN, AnyN, AnyN>>,
-        <<Any, 0, 3, AnyN, AnyN, AnyN, AnyN>>,
+        <<AnyP, 1, AnyN, AnyN, AnyN, AnyN, AnyN>>,
+        <<AnyP, 1, 0, AnyN, AnyN, AnyN, AnyN>>,
+        <<AnyP, 2, 1, AnyN, AnyN, AnyN, AnyN>>,
+        <<AnyP, 1, 2, AnyN, AnyN, AnyN, AnyN>>,
+        <<AnyP, 0, 3, AnyN, AnyN, AnyN, AnyN>>,
         \* destination alone
-        <<Any, AnyN, AnyN, 3, AnyN, AnyN, AnyN>>,
-        <<Any, AnyN, AnyN, 3, 1, AnyN, AnyN>>,
-        <<Any, AnyN, AnyN, 0, 2, AnyN, AnyN>>,
+        <<AnyP, AnyN, AnyN, 3, AnyN, AnyN, AnyN>>,
+        <<AnyP, AnyN, AnyN, 3, 1, AnyN, AnyN>>,
+        <<AnyP, AnyN, AnyN, 0, 2, AnyN, AnyN>>,
         \* ports alone
-        <<Any, AnyN, AnyN, AnyN, AnyN, 53, AnyN>>,
-        <<Any, AnyN, AnyN, AnyN, AnyN, AnyN, 53>>,
-        <<Any, AnyN, AnyN, AnyN, AnyN, AnyN, 80>>,
+        <<AnyP, AnyN, AnyN, AnyN, AnyN, 53, AnyN>>,
+        <<AnyP, AnyN, AnyN, AnyN, AnyN, AnyN, 53>>,
+        <<AnyP, AnyN, AnyN, AnyN, AnyN, AnyN, 80>>,
         \* mixed
         <<"tcp", AnyN, AnyN, AnyN, AnyN, AnyN, 80>>,
         <<"udp", AnyN, AnyN, AnyN, AnyN, 53, 53>>,
         <<"icmp", 2, 1, AnyN, AnyN, AnyN, AnyN>>,
         <<"tcp", 1, AnyN, 3, AnyN, AnyN, 80>>,
-        <<Any, 2, 1, 0, 2, AnyN, 53>>
+        <<AnyP, 2, 1, 0, 2, AnyN, 53>>
     }
 
 Rules ==
     IF Domain = "cover"
     THEN {R(a, t[1], t[2], t[3], t[4], t[5], t[6], t[7]) : a \in Acts, t \in CoverParts}
     ELSE {R(a, q, s[1], s[2], d[1], d[2], sp, dp) :
-             a \in Acts, q \in {Any, "tcp", "udp", "icmp"}, s \in AddrSpecsFull, d \in AddrSpecsFull,
+             a \in Acts, q \in {AnyP, "tcp", "udp", "icmp"}, s \in AddrSpecsFull, d \in AddrSpecsFull,
              sp \in PortsFull, dp \in PortsFull}
 
 PktPorts == IF Domain = "cover" THEN {53, 80} ELSE {0, 53, 80}
